@@ -210,7 +210,12 @@ func (_this *structBuilder) BuildFromArray(ctx *Context, arrayType events.ArrayT
 				value = []byte(common.ToStructFieldIdentifier(string(value)))
 			}
 
-			if generatorDesc, ok := _this.generatorDescs[string(value)]; ok {
+			generatorDesc, ok := _this.generatorDescs[string(value)]
+			if ok && !ctx.config.Builder.CaseInsensitiveStructFieldNames && generatorDesc.field.Name != string(value) {
+				// The table also holds the case-insensitive aliases
+				ok = false
+			}
+			if ok {
 				_this.nextBuilderGenerator = generatorDesc.builderGenerator
 				_this.nextValue = generatorDesc.field.GetField(_this.container)
 			} else {
@@ -236,7 +241,12 @@ func (_this *structBuilder) BuildFromStringlikeArray(ctx *Context, arrayType eve
 				value = common.ToStructFieldIdentifier(value)
 			}
 
-			if generatorDesc, ok := _this.generatorDescs[value]; ok {
+			generatorDesc, ok := _this.generatorDescs[value]
+			if ok && !ctx.config.Builder.CaseInsensitiveStructFieldNames && generatorDesc.field.Name != value {
+				// The table also holds the case-insensitive aliases
+				ok = false
+			}
+			if ok {
 				_this.nextBuilderGenerator = generatorDesc.builderGenerator
 				_this.nextValue = generatorDesc.field.GetField(_this.container)
 			} else {
